@@ -160,3 +160,16 @@ ASSUMPTIONS = [
     "A-PYSYNTAX: evaluation of bracketed comma-separated texts as stated in the module docstring; pyeval(pprint(x)) == x for the elements (callee contract of pprint)",
     "container_script_repr is verified for 0..3 elements (the code has no per-length branch other than the 1-tuple case; longer containers: bounded layer)",
 ]
+
+
+# values(onlychanged=True) — which decides what pprint/script_repr print — compares each value with
+# the default through Comparator: its container rules are part of this check as well (C03 contracts)
+_c20_base = contracts
+
+
+def contracts():
+    from contracts import c03 as _c03
+    extra = [_c03.compare_iterator_contract(), _c03.compare_mapping_contract()]
+    for c in extra:
+        c.prop = PROP
+    return _c20_base() + extra
